@@ -15,7 +15,7 @@ def format_array(solution: np.ndarray, float_format="{:#.2f}") -> str:
 
 
 def format_deme(deme: AbstractDeme, best_fitness: float | None = None) -> str:
-    best_symbol = " *** " if best_fitness and deme.best_individual.fitness == best_fitness else " "
+    best_symbol = " *** " if best_fitness is not None and deme.best_individual.fitness == best_fitness else " "
     is_root = deme._sprout_seed is None
     root_symbol = "root" if is_root else deme._id
     new_deme_symbol = "(new_deme)" if deme.metaepoch_count <= 1 and not is_root else ""
@@ -71,7 +71,7 @@ def format_deme_node_label(deme: AbstractDeme, best_fitness: float | None = None
 
 def get_node_attributes(deme: AbstractDeme, best_fitness: float | None = None) -> dict:
     is_root = deme._sprout_seed is None
-    is_best = best_fitness and deme.best_individual.fitness == best_fitness
+    is_best = best_fitness is not None and deme.best_individual.fitness == best_fitness
     is_new = deme.metaepoch_count <= 1 and not is_root
 
     attrs = {
